@@ -194,6 +194,8 @@ def table_check(out):
 
 
 def run(ctx, out):
+    import families as _fampb
+    out.evaluations += _fampb.positional_bounds_family(out, PROP)
     import families, random as _random
     out.evaluations += families.noninit_tuple_family(out, PROP, _random.Random(ctx['seed']))
     out.rule = ('(1) EXHAUSTIVE name derivation: 3 field names x 12 field-option sets (rename / aliases / in_names / out_name and the refused '
